@@ -52,6 +52,7 @@ rx("m07d", "C07", "struct.go", r"\t\tsubCtx\.Path\.Pop\(\)\n", "", "balance")
 rx("m07e", "C07", "internals/PathBuilder.go", r"\*pb = \(\*pb\)\[:1\]", "*pb = (*pb)[:len(*pb)]", "reinit")
 rx("m07f", "C07", "zogSchema.go", r"func primitiveProcessor\[", "var lastCtx any\n\nfunc primitiveProcessor[", "no-global-state", edits=[("zogSchema.go", r"\tctx\.CanCatch = catch != nil\n\n\tdestPtr", "\tctx.CanCatch = catch != nil\n\tlastCtx = ctx\n\n\tdestPtr")])
 rx("m07g", "C07", "utils.go", r"\t\tif key == zconst\.ISSUE_KEY_FIRST \{\n\t\t\tcontinue\n\t\t\}\n", "\t\t_ = key\n\t\t_ = zconst.ISSUE_KEY_FIRST\n", "release-multiplicity")
+rx("m07h", "C07", "internals/contexts.go", r"func \(c \*ExecCtx\) Get\(", "func (c *ExecCtx) SetAll(vals map[string]any) {\n\tif c.m == nil {\n\t\tc.m = vals\n\t\treturn\n\t}\n\tfor k, v := range vals {\n\t\tc.m[k] = v\n\t}\n}\n\nfunc (c *ExecCtx) Get(", "pooled-map-owned", "a caller's map adopted as the execution's value map")
 # ---- C08
 rx("m08a", "C08", "string.go", r"(func \(v \*StringSchema\[T\]\) process\(ctx \*p\.SchemaCtx\) \{\n)", "${1}\tv.isNot = false\n", "write-effects")
 rx("m08b", "C08", "struct.go", r"\tv\.process\(sctx\)\n\n\treturn errs\.M", "\tgo func() {}()\n\tv.process(sctx)\n\n\treturn errs.M", "no-go")
@@ -77,12 +78,15 @@ rx("m11c", "C11", "internals/contexts.go", r'if e\.Message == "" \{\n\t\tc\.Fmte
 rx("m11d", "C11", "i18n/en/en.go", r'\t\tzconst\.IssueCodeFallback: "time is invalid",\n', "", "type-known")
 rx("m11e", "C11", "internals/contexts.go", r"(func \(c \*SchemaCtx\) IssueFromTest(?s:.*?))\te\.Dtype = c\.DType\n", "${1}", "issue-complete")
 rx("m11f", "C11", "boolean.go", r"p\.NewExecCtx\(errs, conf\.IssueFormatter\)", "p.NewExecCtx(errs, conf.DefaultIssueFormatter)", "precedence")
+rx("m11g", "C11", "i18n/i18n.go", r"\t\t\tif ok \{", "\t\t\tif ok && len(langM) > 1 {", "precedence", "an installed language is used only when it has more than one type table")
 # ---- C12
 rx("m12a", "C12", "slices.go", r"err := fn\(ctx\.ValPtr, ctx\)", "err := fn(ctx.Data, ctx)", "callback-arg")
 rx("m12b", "C12", "time.go", r"\tt\.Func = customTestBackwardsCompatWrapper\(t\.Func\)\n", "", "primitive-testfunc-gets-value")
 rx("m12c", "C12", "zogSchema.go", r"if !ctx\.HasErrored\(\) \{", "if true {", "posttransform-shape")
 rx("m12d", "C12", "preprocess.go", r"(ctx\.AddIssue\(ctx\.IssueFromUnknownError\(err\)\)\n\t\t)return", "${1}_ = 0", "preprocess-skip")
 rx("m12e", "C12", "struct.go", r"(ctx\.AddIssue\(ctx\.IssueFromUnknownError\(err\)\)\n\t\t\t\t\t)return", "${1}continue", "posttransform-shape")
+rx("m12f", "C12", "internals/contexts.go", r"return c\.Issue\(\)\.SetError\(err\)", "return c.Issue()", "unknown-error-shape", "the callback's error is dropped from the issue that reports it")
+rx("m12g", "C12", "internals/contexts.go", r"(func \(c \*SchemaCtx\) IssueFromUnknownError(?s:.*?))\treturn zerr\n", "${1}\tzerr.Path = c.Path.String()\n\treturn zerr\n", "unknown-error-shape", "the callback's own issue gets its path rewritten")
 # ---- C13
 rx("m13a", "C13", "slices.go", r"ctx\.AddIssue\(ctx\.IssueFromTest\(v\.required, ctx\.ValPtr\)\)\n\t\t\treturn", "return", "twin-language")
 rx("m13b", "C13", "struct.go", r"ctx\.AddIssue\(ctx\.IssueFromUnknownError\(err\)\)", "ctx.AddIssue(ctx.Issue().SetError(err))", "twin-language")
@@ -123,6 +127,8 @@ rx("m20b", "C20", "time.go", r"return val\.Equal\(t\)", "return *val == t", "pre
 rx("m20c", "C20", "string.go", r"r >= 'A' && r <= 'Z'", "r >= 'A' && r < 'Z'", "predicate")
 rx("m20d", "C20", "string.go", r"strings\.HasSuffix\(string\(\*val\), string\(s\)\)", "strings.HasPrefix(string(*val), string(s))", "predicate")
 rx("m20e", "C20", "slices.go", r"return rv\.Len\(\) <= n", "return rv.Len() < n", "predicate")
+rx("m20f", "C20", "string.go", r"\{0,61\}\[a-zA-Z0-9\]\)\?\(\?:", "{0,62}[a-zA-Z0-9])?(?:", "regexp-language", "e-mail label length bound off by one")
+rx("m20g", "C20", "string.go", r"\[0-9a-fA-F\]\{12\}\$`", "[0-9a-fA-F]{12}`", "regexp-language", "UUID pattern loses its end anchor")
 
 # ---- seeded changes (patches)
 for meta in sorted(glob.glob("/verif/seeded/*/meta.json")):
